@@ -717,3 +717,33 @@ def utc_time_sources(ctx, rule, prefixes, floor):
     rule.ok('utc time sources :: %s' % ','.join(prefixes),
             '%d UTC reads, no local-time read' % n_utc)
     return n_utc
+
+
+def inbound_before_publish(ctx, rule):
+    """Task.complete refreshes the inbound context from ALL upstream tasks
+    before `publish` is evaluated (and before the routing conditions are):
+    a join that fails without having run still holds the context of the
+    first branch that reached it, so publishing first makes the published
+    values depend on which branch came first."""
+    prog = ctx.prog
+    f = prog.func('mistral.engine.tasks.Task.complete')
+    cfg = ctx.cfg(f)
+    up = U.calls_in(cfg, '_update_inbound_context')
+    pub = U.calls_in(cfg, 'publish_variables')
+    cont = U.calls_in(cfg, 'continue_workflow')
+    if not up or not pub or not cont:
+        raise AnalysisError('Task.complete: inbound update / publish / '
+                            'continue_workflow not found')
+    for n, c in pub + cont:
+        rule.check(any(cfg.dominates(u, n) for u, _c in up),
+                   ctx.construct(f, c, extra='after the inbound context '
+                                 'was refreshed'),
+                   '%s is evaluated against the inbound context stored '
+                   'when the task was created, not the one refreshed from '
+                   'all upstream tasks: the result depends on which branch '
+                   'reached the task first' % U.call_name(c), ctx.loc(f, c))
+    for n, c in cont:
+        rule.check(any(cfg.dominates(p_, n) for p_, _c in pub),
+                   ctx.construct(f, c, extra='after publishing'),
+                   'the routing conditions are evaluated before the task '
+                   'published its variables', ctx.loc(f, c))
